@@ -563,7 +563,8 @@ class _parser:
             # Convert dateobj to utc time to compare with self.now
             try:
                 tz = tz or get_timezone_from_tz_string(self.settings.TIMEZONE)
-                tz_offset = tz.utcoffset(dateobj)
+                # pytz zones with DST only accept naive datetimes here
+                tz_offset = tz.utcoffset(dateobj.replace(tzinfo=None))
             except (pytz.UnknownTimeZoneError, pytz.InvalidTimeError):
                 tz_offset = timedelta(hours=0)
 
